@@ -14,7 +14,7 @@ use crate::{
     eng::{action_name, Engine, RngSpec, F, R},
     gen::{chacha, ctx_strategy, rng_strategy, seed_strategy, slot_strategy, Cfg, CtxSpec, SeedSpec, SlotSpec, Triple, TripleSpec, BITS},
     mutate::{pick, proof_mut, st_mut, Applied, ProofMut, PubStatement, StMut, StPointHow},
-    runner::{guarded, no_fixed, sub, CaseLog, PropertyDef, RunCtx, Sub, Tier},
+    runner::{guarded, setup, no_fixed, sub, CaseLog, PropertyDef, RunCtx, Sub, Tier},
 };
 
 #[derive(Clone, Debug, Serialize, Deserialize)]
@@ -169,7 +169,7 @@ pub fn build_member<E: Engine>(bits: usize, ext: usize, pm: &PoolMember, max_nm:
         bulk: pm.bulk,
     };
     let t = Triple::<E>::build(&spec)?;
-    let proof = guarded(|| t.prove())?.map_err(|e| format!("prover refused a valid witness: {:?}", e))?;
+    let proof = setup(guarded(|| t.prove()), "the prover refused or panicked on a valid witness (C01's subject)")?;
     let honest_mask = if t.seed.is_some() { Some(t.blindings[0].clone()) } else { None };
     let mut ps = PubStatement::<E>::of(&t);
     let honest = |t: &Triple<E>, proof: RangeProof<E::P>| Member {
@@ -604,16 +604,18 @@ pub fn shape_oracle<E: Engine>(_ctx: &RunCtx, spec: &ShapeSpec, log: &mut CaseLo
                             .values
                             .iter()
                             .zip(t0.blindings.iter())
-                            .map(|(v, r)| E::commit(&pc, &Scalar::from(*v), r).map_err(|e| format!("{:?}", e)))
+                            .map(|(v, r)| E::commit(&pc, &Scalar::from(*v), r).map_err(crate::runner::skip_err))
                             .collect::<Result<_, _>>()?;
                         let st = ps.statement(None)?;
-                        let proof = guarded(|| E::prove(&mut ps.ctx.transcript(), &st, &t0.w, &mut odd_spec.rng.make()))?
-                            .map_err(|e| format!("prover refused under substituted generators: {:?}", e))?;
+                        let proof = setup(
+                            guarded(|| E::prove(&mut ps.ctx.transcript(), &st, &t0.w, &mut odd_spec.rng.make())),
+                            "the prover refused or panicked under substituted generators (C01's subject)",
+                        )?;
                         (st, proof, ps.ctx.clone())
                     },
                     _ => {
                         let t0 = Triple::<E>::build(&odd_spec)?;
-                        let proof = guarded(|| t0.prove())?.map_err(|e| format!("{:?}", e))?;
+                        let proof = guarded(|| t0.prove())?.map_err(crate::runner::skip_err)?;
                         (t0.st.clone(), proof, t0.spec.ctx.clone())
                     },
                 };
@@ -762,7 +764,7 @@ pub fn cancel_strategy() -> impl Strategy<Value = CancelSpec> {
 
 fn shift_d1<E: Engine>(m: &mut Member<E>, coord: usize, delta: Scalar) -> Result<(), String> {
     use crate::refimpl::Proof;
-    let mut pf = Proof::parse_layout(&m.proof.to_bytes()).map_err(|e| format!("{:?}", e))?;
+    let mut pf = Proof::parse_layout(&m.proof.to_bytes()).map_err(crate::runner::skip_err)?;
     let c = coord % pf.d1.len();
     pf.d1[c] = (Scalar::from_bytes_mod_order(pf.d1[c]) + delta).to_bytes();
     m.proof = RangeProof::<E::P>::from_bytes(&pf.encode()).map_err(|e| format!("re-decode: {:?}", e))?;
